@@ -100,6 +100,43 @@ def adjustLimit (lim : Limit) : Except Err Limit :=
   | .error e => .error e
   | .ok d => adjustLoop d REGISTERED lim
 
+/-! ### the DOCUMENTED completion (specification of `_adjust_limit`, written role by role)
+
+The class comment documents `"Conv2D": [weight, bias, activation]`, `"RNN": [weight, bias, recurrent,
+activation]`, "default replaces missing values".  `docEntry` says that without slices: a missing slot
+receives the default OF THAT ROLE. -/
+
+/-- role defaults of a normalised default list `[w, b, a]` or `[w, b, r, a]` -/
+def defWeight (d : List LimVal) : Option LimVal := d[0]?
+def defBias (d : List LimVal) : Option LimVal := d[1]?
+def defRecurrent (d : List LimVal) : Option LimVal := if d.length = 4 then d[2]? else none
+def defActivation (d : List LimVal) : Option LimVal := d.getLast?
+
+/-- slot `i` of the user's list, else the role default -/
+def slotOr (l : List LimVal) (i : Nat) (dv : Option LimVal) : Option LimVal :=
+  match l[i]? with
+  | some v => some v
+  | none => dv
+
+/-- the documented entry of a registered class: recurrent classes have four roles, the others three;
+    a list that already has all its roles is kept -/
+def docEntry (d : List LimVal) (name : String) (l : List LimVal) : List LimVal :=
+  if name ∈ SEQUENCE then
+    if l.length < 4 then
+      [slotOr l 0 (defWeight d), slotOr l 1 (defBias d), slotOr l 2 (defRecurrent d),
+       slotOr l 3 (defActivation d)].filterMap id
+    else l
+  else if l.length < 3 then
+    [slotOr l 0 (defWeight d), slotOr l 1 (defBias d), slotOr l 2 (defActivation d)].filterMap id
+  else l
+
+/-- the documented limit dictionary: class keys of `REGISTERED` completed, every other key as given -/
+def docLimit (d : List LimVal) (lim : Limit) : Limit :=
+  lim.map fun kv =>
+    match kv.2 with
+    | .vals l => if kv.1 ∈ REGISTERED then (kv.1, .vals (docEntry d kv.1 l)) else kv
+    | .scalar _ => kv
+
 /-! ## `_get_quantizer` -/
 
 def isPrefixB : List Char → List Char → Bool
@@ -457,6 +494,17 @@ def quantizeModel (env : Env) (tn : Tune) (layers : List Layer) : Except Err QmO
     match loop2 env tn nf s1 0 { st := st } layers with
     | .error e => .error e
     | .ok s2 => .ok { qdict := s2.qdict, arch := s2.arch, log := s2.st.log, groups := s2.st.groups }
+
+/-- `AutoQKHyperModel(..., limit=user_limit, ...)` followed by `quantize_model(hp)`: the constructor
+    completes the user's dictionary (`_adjust_limit`), every later step reads the completed one.
+    `env.limit` is the USER's dictionary here. -/
+def quantizeModelUser (env : Env) (tn : Tune) (layers : List Layer) : Except Err (Limit × QmOut) :=
+  match adjustLimit env.limit with
+  | .error e => .error e
+  | .ok lim =>
+    match quantizeModel { env with limit := lim } tn layers with
+    | .error e => .error e
+    | .ok o => .ok (lim, o)
 
 /-! ## what `model_quantize` reads of that dictionary (qkeras/utils.py, per class) -/
 
